@@ -409,13 +409,17 @@ def parse_tla_value(s: str):
 
 def sany_all() -> int:
     bad = 0
-    for f in sorted(SPEC.glob("*.tla")):
-        p = subprocess.run(["java", "-cp", TLA_CP, "tla2sany.SANY", str(f)], cwd=SPEC,
-                           capture_output=True, text=True)
-        if p.returncode != 0 or "Semantic errors" in p.stdout or "Could not parse" in p.stdout \
-                or "*** Errors" in p.stdout or "Fatal" in p.stdout:
-            print(f"SANY FAILED {f.name}\n{p.stdout[-2000:]}")
-            bad += 1
+    tmp = tempfile.mkdtemp(prefix="verif-sany-")      # SANY unpacks the standard modules into java.io.tmpdir
+    try:
+        for f in sorted(SPEC.glob("*.tla")):
+            p = subprocess.run(["java", f"-Djava.io.tmpdir={tmp}", "-cp", TLA_CP, "tla2sany.SANY", str(f)], cwd=SPEC,
+                               capture_output=True, text=True)
+            if p.returncode != 0 or "Semantic errors" in p.stdout or "Could not parse" in p.stdout \
+                    or "*** Errors" in p.stdout or "Fatal" in p.stdout:
+                print(f"SANY FAILED {f.name}\n{p.stdout[-2000:]}")
+                bad += 1
+    finally:
+        shutil.rmtree(tmp, ignore_errors=True)
     return bad
 
 
